@@ -319,6 +319,7 @@ fn parse_url(url: &str) -> Option<(String, Date, Date)> {
 #[async_trait::async_trait(?Send)]
 impl acb::util::http::HttpRequester for SimBoc {
     async fn get(&self, url: &str) -> Result<String, String> {
+        crate::interpose::simulated_request_latency();
         let n = self.log.borrow().len();
         if n >= 64 {
             return Err("SimBoC: request budget of this simulated process exhausted".to_string());
